@@ -481,7 +481,7 @@ theorem pst_one {p p' : PState} {l : PLabel} (h : Processor.step pcfg p l = some
 /-- Once `stopCh` is closed the loop goroutine ends: from every program counter there is a path of
 its own steps to `absent` (the callback, if one is running, is assumed to return — in the batcher
 that is `execute_completes`), with `Close`'s own state untouched. -/
-theorem loop_exits {p : PState} (hstop : p.stopClosed = true) :
+theorem loop_exits {p : PState} (hstop : p.stopClosed = true) (hroot : ∀ h, p.root = some h → IsMin p.q h) :
     ∃ p', PSt p p' ∧ p'.pc = .absent ∧ p'.cpc = p.cpc ∧ p'.stopClosed = true := by
   -- exiting
   have hX : ∀ q : PState, q.pc = .exiting → q.stopClosed = true →
@@ -494,42 +494,56 @@ theorem loop_exits {p : PState} (hstop : p.stopClosed = true) :
     intro q r hq hs
     obtain ⟨p', h1, h2⟩ := hX { q with pc := .exiting } rfl hs
     exact ⟨p', (pst_one (l := .pollStop) (by simp [Processor.step, hq, hs])).trans h1, h2⟩
-  -- top
-  have hT : ∀ q : PState, q.pc = .top → q.stopClosed = true →
+  -- top: look at the remembered root if there is one, else at any minimal item
+  have hT : ∀ q : PState, q.pc = .top → q.stopClosed = true → (∀ h, q.root = some h → IsMin q.q h) →
       ∃ p', PSt q p' ∧ p'.pc = .absent ∧ p'.token = .free ∧ p'.cpc = q.cpc ∧ p'.stopClosed = true := by
-    intro q hq hs
-    by_cases hem : q.q = []
-    · exact ⟨{ q with token := .free, pc := .absent }, pst_one (l := .peek none) (by simp [Processor.step, hq, IsHead, hem]),
-        rfl, rfl, rfl, hs⟩
-    · obtain ⟨m, hm⟩ := exists_min q.q hem
-      obtain ⟨p', h1, h2⟩ := hP { q with pc := .peeked m } m rfl hs
-      exact ⟨p', (pst_one (l := .peek (some m)) (by simp [Processor.step, hq, IsHead, hm])).trans h1, h2⟩
+    intro q hq hs hro
+    cases hr : q.root with
+    | some h =>
+      have hm := hro h hr
+      obtain ⟨p', h1, h2⟩ := hP { q with pc := .peeked h, root := some h } h rfl hs
+      exact ⟨p', (pst_one (l := .peek (some h)) (by simp [Processor.step, hq, IsHead, hm, hr])).trans h1, h2⟩
+    | none =>
+      by_cases hem : q.q = []
+      · exact ⟨{ q with token := .free, pc := .absent }, pst_one (l := .peek none) (by simp [Processor.step, hq, IsHead, hem, hr]),
+          rfl, rfl, rfl, hs⟩
+      · obtain ⟨m, hm⟩ := exists_min q.q hem
+        obtain ⟨p', h1, h2⟩ := hP { q with pc := .peeked m, root := some m } m rfl hs
+        exact ⟨p', (pst_one (l := .peek (some m)) (by simp [Processor.step, hq, IsHead, hm, hr])).trans h1, h2⟩
   -- running
-  have hR : ∀ (q : PState) r, q.pc = .running r → q.stopClosed = true →
+  have hR : ∀ (q : PState) r, q.pc = .running r → q.stopClosed = true → (∀ h, q.root = some h → IsMin q.q h) →
       ∃ p', PSt q p' ∧ p'.pc = .absent ∧ p'.token = .free ∧ p'.cpc = q.cpc ∧ p'.stopClosed = true := by
-    intro q r hq hs
-    obtain ⟨p', h1, h2⟩ := hT { q with pc := .top } rfl hs
+    intro q r hq hs hro
+    obtain ⟨p', h1, h2⟩ := hT { q with pc := .top } rfl hs hro
     exact ⟨p', (pst_one (l := .cbReturn) (by simp [Processor.step, hq])).trans h1, h2⟩
   -- popped
-  have hO : ∀ (q : PState) r, q.pc = .popped r → q.stopClosed = true →
+  have hO : ∀ (q : PState) r, q.pc = .popped r → q.stopClosed = true → (∀ h, q.root = some h → IsMin q.q h) →
       ∃ p', PSt q p' ∧ p'.pc = .absent ∧ p'.token = .free ∧ p'.cpc = q.cpc ∧ p'.stopClosed = true := by
-    intro q r hq hs
-    obtain ⟨p', h1, h2⟩ := hR { q with pc := .running r, log := .exec r q.now :: q.log } r rfl hs
+    intro q r hq hs hro
+    obtain ⟨p', h1, h2⟩ := hR { q with pc := .running r, log := .exec r q.now :: q.log } r rfl hs hro
     exact ⟨p', (pst_one (l := .cbStart) (by simp [Processor.step, hq])).trans h1, h2⟩
   -- firing
-  have hF : ∀ (q : PState) r, q.pc = .firing r → q.stopClosed = true →
+  have hF : ∀ (q : PState) r, q.pc = .firing r → q.stopClosed = true → (∀ h, q.root = some h → IsMin q.q h) →
       ∃ p', PSt q p' ∧ p'.pc = .absent ∧ p'.token = .free ∧ p'.cpc = q.cpc ∧ p'.stopClosed = true := by
-    intro q r hq hs
-    by_cases hem : q.q = []
-    · obtain ⟨p', h1, h2⟩ := hT { q with pc := .top } rfl hs
-      exact ⟨p', (pst_one (l := .execCheck none) (by simp [Processor.step, hq, IsHead, hem])).trans h1, h2⟩
-    · obtain ⟨m, hm⟩ := exists_min q.q hem
-      by_cases hmr : m = r
-      · subst hmr
-        obtain ⟨p', h1, h2⟩ := hO { q with q := pop q.q m, pc := .popped m, log := .pop m :: q.log } m rfl hs
-        exact ⟨p', (pst_one (l := .execCheck (some m)) (by simp [Processor.step, hq, IsHead, hm])).trans h1, h2⟩
-      · obtain ⟨p', h1, h2⟩ := hT { q with pc := .top } rfl hs
-        exact ⟨p', (pst_one (l := .execCheck (some m)) (by simp [Processor.step, hq, IsHead, hm, hmr])).trans h1, h2⟩
+    intro q r hq hs hro
+    -- the head `execute` will see: the remembered root, else nothing / any minimal item
+    have hhd : ∃ hd : Option (Item Nat Nat), IsHead q.q hd ∧ (q.root = none ∨ q.root = hd) := by
+      cases hr : q.root with
+      | some h => exact ⟨some h, hro h hr, Or.inr rfl⟩
+      | none =>
+        by_cases hem : q.q = []
+        · exact ⟨none, hem, Or.inl rfl⟩
+        · obtain ⟨m, hm⟩ := exists_min q.q hem
+          exact ⟨some m, hm, Or.inl rfl⟩
+    obtain ⟨hd, hh, hrt⟩ := hhd
+    by_cases he : hd = some r
+    · subst he
+      obtain ⟨p', h1, h2⟩ := hO { q with q := pop q.q r, pc := .popped r, log := .pop r :: q.log, root := none } r rfl hs
+        (by intro h hh'; simp at hh')
+      exact ⟨p', (pst_one (l := .execCheck (some r)) (by simp [Processor.step, hq, hh, hrt])).trans h1, h2⟩
+    · obtain ⟨p', h1, h2⟩ := hT { q with pc := .top, root := hd } rfl hs
+        (by intro h hh'; simp only at hh'; subst hh'; exact hh)
+      exact ⟨p', (pst_one (l := .execCheck hd) (by simp [Processor.step, hq, hh, hrt, he])).trans h1, h2⟩
   -- armed
   have hA : ∀ (q : PState) r, q.pc = .armed r → q.stopClosed = true →
       ∃ p', PSt q p' ∧ p'.pc = .absent ∧ p'.token = .free ∧ p'.cpc = q.cpc ∧ p'.stopClosed = true := by
@@ -543,11 +557,11 @@ theorem loop_exits {p : PState} (hstop : p.stopClosed = true) :
     obtain ⟨p', h1, h2⟩ := hA { q with pc := .armed r, timer := q.now + q.timer, armAt := q.now } r rfl hs
     exact ⟨p', (pst_one (l := .arm) (by simp [Processor.step, hq])).trans h1, h2⟩
   -- polled
-  have hL : ∀ (q : PState) r, q.pc = .polled r → q.stopClosed = true →
+  have hL : ∀ (q : PState) r, q.pc = .polled r → q.stopClosed = true → (∀ h, q.root = some h → IsMin q.q h) →
       ∃ p', PSt q p' ∧ p'.pc = .absent ∧ p'.token = .free ∧ p'.cpc = q.cpc ∧ p'.stopClosed = true := by
-    intro q r hq hs
+    intro q r hq hs hro
     by_cases hdue : r.time - q.now < halfMs
-    · obtain ⟨p', h1, h2⟩ := hF { q with pc := .firing r, readAt := q.now } r rfl hs
+    · obtain ⟨p', h1, h2⟩ := hF { q with pc := .firing r, readAt := q.now } r rfl hs hro
       exact ⟨p', (pst_one (l := .decide) (by simp [Processor.step, hq, hdue])).trans h1, h2⟩
     · obtain ⟨p', h1, h2⟩ := hG { q with pc := .arming r, timer := r.time - q.now, readAt := q.now } r rfl hs
       exact ⟨p', (pst_one (l := .decide) (by simp [Processor.step, hq, hdue])).trans h1, h2⟩
@@ -557,14 +571,14 @@ theorem loop_exits {p : PState} (hstop : p.stopClosed = true) :
     exact ⟨p', h1, h2, h4, h5⟩
   cases hpc : p.pc with
   | absent => exact ⟨p, Steps.refl _, hpc, rfl, hstop⟩
-  | top => exact drop (hT p hpc hstop)
+  | top => exact drop (hT p hpc hstop hroot)
   | peeked r => exact drop (hP p r hpc hstop)
-  | polled r => exact drop (hL p r hpc hstop)
+  | polled r => exact drop (hL p r hpc hstop hroot)
   | armed r => exact drop (hA p r hpc hstop)
   | arming r => exact drop (hG p r hpc hstop)
-  | firing r => exact drop (hF p r hpc hstop)
-  | popped r => exact drop (hO p r hpc hstop)
-  | running r => exact drop (hR p r hpc hstop)
+  | firing r => exact drop (hF p r hpc hstop hroot)
+  | popped r => exact drop (hO p r hpc hstop hroot)
+  | running r => exact drop (hR p r hpc hstop hroot)
   | exiting => exact drop (hX p hpc hstop)
 
 /-- `queue.Close()` returns: from every reachable processor state in which `Close` has been called. -/
@@ -578,7 +592,7 @@ theorem queue_close_completes {p : PState} (hr : Reach (Processor.lts pcfg) p) (
     have hAq := Processor.invA hq
     unfold Processor.InvA at hAq
     have hs : q.stopClosed = true := hAq.2.2.2.1.mpr (Or.inl hcq)
-    obtain ⟨q1, h1, hpc1, hcpc1, hs1⟩ := loop_exits hs
+    obtain ⟨q1, h1, hpc1, hcpc1, hs1⟩ := loop_exits hs (Processor.invR hq).1
     have hq1 := Steps.reach h1 hq
     have hA1 := Processor.invA hq1
     unfold Processor.InvA at hA1
